@@ -16,7 +16,8 @@ EXPLANATION = (
     'exactly when the two options differ (the compile-time branch is resolved from its constant value); (D3) the element '
     'accessor of the product wrappers is called by the library only on the diagonal (i == j), where it is triangle-independent; '
     '(D4) the stored input matrix of a wrapper is consumed only by triangle views, triangle-aware factorizations, size queries or '
-    'element access -- never by a plain product or copy. '
+    'element access -- never by a plain product or copy; (D5) each wrapper factorizes with a method adequate for the class of its '
+    'matrix (pivoting LU / Bunch-Kaufman for shifted indefinite or general matrices, Cholesky / CG for the positive definite B). '
     'Does NOT decide backward-stable accuracy of any wrapper; Eigen\'s kernels and its documentation of which template '
     'argument selects which triangle are trusted.')
 ASSUMPTIONS = ["Eigen's UpLo template arguments select the triangle that is read (Eigen documentation)"]
@@ -231,6 +232,7 @@ def stored_matrix_consumers(ctx, rule='stored-matrix-read-only-through-triangle'
             if not mats:
                 continue
             problems = []
+            uses_extra = []
             nuse = 0
             for fn in ctx.F.methods(rec['qname']):
                 for x in fn.walk():
@@ -261,14 +263,93 @@ def stored_matrix_consumers(ctx, rule='stored-matrix-read-only-through-triangle'
                             nm2, _ = split_targs(oty.replace('const ', '', 1))
                             ok = TRI_TYPES.get(nm) is not None or TRI_TYPES.get(nm2) is not None
                     if not ok:
+                        # an expression built from the stored matrix (A - sigma I, a cast, ...) handed directly to a triangle-aware
+                        # factorization is read through that factorization's triangle
+                        for anc in fn.ancestors(x):
+                            if anc['k'] == 'CXXMemberCallExpr' and anc.get('callee') in ('compute', 'analyzePattern', 'factorize'):
+                                ob = fn.call_object(anc)
+                                oty = (fn.strip(ob) or {}).get('t', '') if ob is not None else ''
+                                nm2, args2 = split_targs(oty.replace('const ', '', 1))
+                                if TRI_TYPES.get(nm2) is not None and any(fn.within(x, a_['id']) for a_ in fn.call_args(anc)):
+                                    ok = True
+                                    uses_extra.append(('%s: %s triangle of an expression over the stored matrix' % (fn.name, nm2.replace('Eigen::', '')), args2[TRI_TYPES[nm2]] if len(args2) > TRI_TYPES[nm2] else '?'))
+                                break
+                    if not ok:
+                        # ... or copied into a local whose every use is such an argument (or a size query)
+                        for anc in fn.ancestors(x):
+                            if anc['k'] == 'DeclStmt' and len(anc.get('decls', [])) == 1 and 'var' in anc['decls'][0]:
+                                lv = anc['decls'][0]['var']
+                                uses_l = [y for y in fn.walk() if y['k'] == 'DeclRefExpr' and y.get('var') == lv]
+                                good = bool(uses_l)
+                                tri = None
+                                for y in uses_l:
+                                    okuse = False
+                                    for a2 in fn.ancestors(y):
+                                        if a2['k'] == 'MemberExpr' and a2.get('mk') == 'method' and a2.get('member') in SIZE:
+                                            okuse = True
+                                            break
+                                        if a2['k'] == 'CXXMemberCallExpr' and a2.get('callee') in ('compute', 'analyzePattern', 'factorize'):
+                                            ob = fn.call_object(a2)
+                                            oty = (fn.strip(ob) or {}).get('t', '') if ob is not None else ''
+                                            nm2, args2 = split_targs(oty.replace('const ', '', 1))
+                                            if TRI_TYPES.get(nm2) is not None and any(fn.within(y, a_['id']) for a_ in fn.call_args(a2)):
+                                                okuse = True
+                                                tri = (nm2, args2[TRI_TYPES[nm2]] if len(args2) > TRI_TYPES[nm2] else '?')
+                                            break
+                                    good = good and okuse
+                                if good and tri is not None:
+                                    ok = True
+                                    uses_extra.append(('%s: %s triangle of a local copy built from the stored matrix' % (fn.name, tri[0].replace('Eigen::', '')), tri[1]))
+                                break
+                    if not ok:
                         problems.append('%s: the stored matrix %s is consumed by %s (`%s`): both triangles are read' % (fn.name, x['member'], how, fn.s(par['id'])[:60] if par is not None else ''))
             n += 1
             u = record_param(rec, 'Uplo')
+            problems += ['%s uses %s, the class was instantiated with %s' % (what_, NAMES.get(v_, v_), NAMES.get(u, u)) for what_, v_ in uses_extra if v_ != u]
             ctx.check(not problems, rule, '%s<%s>' % (w, NAMES.get(u, u)), rec['qname'],
                       '%d uses of the stored matrix: size queries, triangle views, triangle-aware factorizations, element access only' % nuse
                       if not problems else '; '.join(sorted(set(problems))[:3]))
     if n < 10:
         raise AnalysisBroken('only %d wrappers with a stored matrix analysed' % n)
+
+
+# wrapper -> (what its matrix is, factorization templates that are adequate for it)
+FACTORIZATION_KIND = {
+    'DenseSymShiftSolve': ('A - sigma I, symmetric INDEFINITE in general', ('Spectra::BKLDLT',)),
+    'SparseSymShiftSolve': ('A - sigma I, symmetric INDEFINITE in general', ('Eigen::SparseLU',)),
+    'DenseGenRealShiftSolve': ('A - sigma I, general', ('Eigen::PartialPivLU', 'Eigen::FullPivLU')),
+    'DenseGenComplexShiftSolve': ('A - sigma I, general complex', ('Eigen::PartialPivLU', 'Eigen::FullPivLU')),
+    'SparseGenRealShiftSolve': ('A - sigma I, general', ('Eigen::SparseLU',)),
+    'SparseGenComplexShiftSolve': ('A - sigma I, general complex', ('Eigen::SparseLU',)),
+    'DenseCholesky': ('B, symmetric positive definite', ('Eigen::LLT', 'Eigen::LDLT')),
+    'SparseCholesky': ('B, symmetric positive definite', ('Eigen::SimplicialLLT', 'Eigen::SimplicialLDLT')),
+    'SparseRegularInverse': ('B, symmetric positive definite', ('Eigen::ConjugateGradient', 'Eigen::SimplicialLLT', 'Eigen::SimplicialLDLT')),
+}
+
+
+def factorization_kinds(ctx, rule='factorization-adequate-for-matrix-class'):
+    """Backward-stable accuracy for every admissible matrix needs a factorization that is stable for the CLASS of matrix the
+    wrapper factorizes: a pivoting method (LU with partial pivoting, Bunch-Kaufman) for the indefinite / general shifted
+    matrices, Cholesky / CG only for the positive definite B.  Table rule over the solver field types of the 9 wrappers."""
+    n = 0
+    for w, (what, okset) in sorted(FACTORIZATION_KIND.items()):
+        recs = ctx.F.records_of('Spectra::' + w, dep=False)
+        if not recs:
+            raise AnalysisBroken('%s not instantiated' % w)
+        for rec in recs:
+            facs = []
+            for f in rec['fields']:
+                nm, _ = split_targs(f['type'].replace('const ', '', 1))
+                if nm.startswith('Eigen::') and any(k in nm for k in ('LU', 'LLT', 'LDLT', 'Cholesky', 'QR', 'Gradient', 'CG', 'BiCG', 'GMRES')) or nm == 'Spectra::BKLDLT':
+                    facs.append((f['name'], nm))
+            n += 1
+            bad = ['%s : %s' % (fname, nm.replace('Eigen::', '')) for fname, nm in facs if nm not in okset]
+            ctx.check(bool(facs) and not bad, rule, w, rec['qname'],
+                      '%s: factorized by %s' % (what, ', '.join(nm.replace('Eigen::', '') for _, nm in facs)) if facs and not bad else
+                      ('%s, but the solver is %s: not in the adequate set %s (an unpivoted or definite-only method breaks down or loses accuracy on admissible inputs)' %
+                       (what, ', '.join(bad), [k.replace('Eigen::', '') for k in okset])) if facs else 'no factorization member found')
+    if n < 9:
+        raise AnalysisBroken('only %d wrapper instantiations analysed' % n)
 
 
 def element_accessor_diagonal_only(ctx, rule='element-accessor-used-on-diagonal-only'):
@@ -289,6 +370,7 @@ def element_accessor_diagonal_only(ctx, rule='element-accessor-used-on-diagonal-
 
 def run(ctx):
     stored_matrix_consumers(ctx)
+    factorization_kinds(ctx)
     triangle_threading(ctx)
     shift_invert_typestate(ctx)
     element_accessor_diagonal_only(ctx)
